@@ -306,7 +306,25 @@ impl Property for C05 {
             }
         };
         let is_se = problem.to_ascii_lowercase().starts_with("se");
-        let label = |rng: &mut Rng| if apx && !wrapper { names[rng.below(n)].clone() } else { (rng.below(n) + 1).to_string() };
+        // half of the valid query arguments are members of the grounded extension when it is not empty
+        // (shortcuts of the command-line glue for "settled" arguments are otherwise rarely exercised)
+        let gr = RefAf::new(n, &atts).grounded();
+        let pick = |rng: &mut Rng| -> usize {
+            let members: Vec<usize> = (0..n).filter(|i| gr >> i & 1 == 1).collect();
+            if !members.is_empty() && rng.bool() {
+                *rng.pick(&members)
+            } else {
+                rng.below(n)
+            }
+        };
+        let label = |rng: &mut Rng| {
+            let k = pick(rng);
+            if apx && !wrapper {
+                names[k].clone()
+            } else {
+                (k + 1).to_string()
+            }
+        };
         let arg = match rng.below(12) {
             0 => None,
             1 => Some(rng.pick(&["0", "99", "zz", "-1", "a b"]).to_string()),
